@@ -1,47 +1,31 @@
 package main
 
 import (
-	"crypto/tls"
 	"fmt"
 	"time"
 
-	"github.com/caddyserver/caddy/v2"
 	_ "github.com/caddyserver/caddy/v2/modules/standard"
 	_ "github.com/mholt/caddy-l4"
 
 	"verifharness/drive"
 	"verifharness/hmods"
-	"verifharness/tlsutil"
 	"verifharness/vnet"
 )
 
 func main() {
-	cert, _ := tlsutil.NewCert("verif.test")
-	cfg := tlsutil.CaddyConfig(cert, nil)
-	cfg = cfg[:len(cfg)-1]
-	// enable logs
-	cfg = `{"admin":{"disabled":true},"logging":{"logs":{"default":{"level":"DEBUG"}}},` + cfg[len(`{"admin":{"config":{"persist":false},"disabled":true},`):] + "}"
-	fmt.Println(cfg[:200])
-	if err := caddy.Load([]byte(tlsutil.CaddyConfig(cert, nil)), true); err != nil {
-		panic(err)
-	}
-	ctx := caddy.ActiveContext()
-	lw, err := hmods.LoadWrapper(ctx, `{"routes":[{"match":[{"tls":{}}],"handle":[{"handler":"tls"}]}],"matching_timeout":"2s"}`)
+	routes := `[{"match":[{"proxy_protocol":{}}],"handle":[{"handler":"proxy_protocol"}]},{"handle":[{"handler":"verif_span","name":"other","expand":["{l4.conn.remote_addr}"]},{"handler":"verif_sink","name":"sink"}]}]`
+	app, err := drive.StartApp(routes, "5s")
 	if err != nil {
 		panic(err)
 	}
-	base := vnet.NewListener("x")
-	ln := lw.WrapListener(base)
-	cl, sv := drive.NewPair("c1")
-	base.Inject(sv)
-	go func() {
-		tc := tls.Client(cl, &tls.Config{RootCAs: cert.Pool, ServerName: "verif.test"})
-		cl.SetReadDeadline(time.Now().Add(3 * time.Second))
-		fmt.Println("handshake:", tc.Handshake())
-		tc.Write([]byte("hello"))
-		tc.CloseWrite()
-	}()
-	cn, err := ln.Accept()
-	fmt.Println("accept", cn, err)
-	fmt.Println(string(drive.ReadAll(cn)))
+	rec := hmods.Track("x1")
+	cl, sv := vnet.Pair("x1", vnet.TCPAddr("10.1.2.3", 999), vnet.TCPAddr("192.0.2.1", 443))
+	app.L.Inject(sv)
+	cl.Write([]byte("PROXY TCP4 1.2.3.4 5.6.7.8 1111 2222\r\nhello"))
+	cl.CloseWrite()
+	cl.WaitPeerClosed(3 * time.Second)
+	for _, e := range rec.Events() {
+		fmt.Println(e.Kind, e.Who, e.S, e.S2, e.N)
+	}
+	fmt.Printf("%q\n", rec.Stream("sink"))
 }
